@@ -11,16 +11,17 @@ import (
 
 // Config steers the world generator.
 type Config struct {
-	MaxRemotes  int
-	MaxRegistry int
-	NFinders    int
-	Clones      bool // allow packages with identical content under different addresses
-	ErrorDeps   bool // allow dependencies that must fail (no allowed version, escaping relative path)
-	Diags       bool // finders emit diagnostics
-	Meta        bool // fetcher returns package metadata
-	RichTrees   bool // extra files: links, empty dirs, odd modes (C09)
-	Twins       bool // build-metadata twins among the offered versions
-	OddSubPaths bool // sub-path names that need care when printed
+	MaxRemotes     int
+	MaxRegistry    int
+	NFinders       int
+	Clones         bool // allow packages with identical content under different addresses
+	ErrorDeps      bool // allow dependencies that must fail (no allowed version, escaping relative path)
+	Diags          bool // finders emit diagnostics
+	Meta           bool // fetcher returns package metadata
+	RichTrees      bool // extra files: links, empty dirs, odd modes (C09)
+	Twins          bool // build-metadata twins among the offered versions
+	EmptyDirClones bool // clones that differ in an empty directory only, with an Add call for that directory
+	OddSubPaths    bool // sub-path names that need care when printed
 }
 
 var remoteAddrs = []string{
@@ -69,6 +70,7 @@ func Gen(t *rapid.T, cfg Config) World {
 		subs = append(append([]string{}, subPool...), oddSubPool...)
 	}
 	var w World
+	var emptyDirCall *AddCall
 	// which sub-paths exist in which package
 	pkgSubs := make([][]string, nRem)
 	for i := 0; i < nRem; i++ {
@@ -177,7 +179,7 @@ func Gen(t *rapid.T, cfg Config) World {
 		}
 		if cfg.Meta && rapid.Bool().Draw(t, "meta?") {
 			p.Meta = &Meta{CommitID: rapid.SampledFrom([]string{"abc123", "deadbeef", ""}).Draw(t, "commit"),
-				Message: rapid.SampledFrom([]string{"initial commit", "", "fix: things\n\nbody"}).Draw(t, "message")}
+				Message: rapid.SampledFrom([]string{"initial commit", "", "fix: things\n\nbody", "legacy encoding caf{xff} byte"}).Draw(t, "message")}
 		}
 		if cfg.RichTrees {
 			p.Extra = genExtra(t, i)
@@ -199,13 +201,20 @@ func Gen(t *rapid.T, cfg Config) World {
 			last.Extra = append(append(fsx.Tree{}, src.Extra...), fsx.Node{Path: ".git/HEAD", Kind: "file", Content: "ref: b (other checkout)", Mode: 0644, Sec: 1500000000},
 				fsx.Node{Path: ".terraform/plugins/x", Kind: "file", Content: "plugin", Mode: 0755, Sec: 1500000000})
 		}
-		if rapid.IntRange(0, 2).Draw(t, "nearclone?") == 0 {
+		if cfg.EmptyDirClones && rapid.IntRange(0, 2).Draw(t, "emptydirclone?") == 0 {
+			// ... or a copy that differs in an empty directory only, which the caller asks for
+			last.Extra = append(append(fsx.Tree{}, src.Extra...), fsx.Node{Path: "only-empty", Kind: "dir", Mode: 0755, Sec: 1500000000})
+			emptyDirCall = &AddCall{Kind: "remote", Addr: withSub(last.Addr, "only-empty")}
+		} else if rapid.IntRange(0, 2).Draw(t, "nearclone?") == 0 {
 			// ... or differs in exactly one file
 			last.Extra = append(append(fsx.Tree{}, src.Extra...), fsx.Node{Path: "only-here.txt", Kind: "file", Content: "x", Mode: 0644, Sec: 1500000000})
 			last.Content = src.Content // same marker, different content
 		}
 	}
 	// script
+	if emptyDirCall != nil {
+		w.Script = append(w.Script, AddCall{Kind: "remote", Addr: w.Remotes[0].Addr}, *emptyDirCall)
+	}
 	nCalls := rapid.IntRange(1, 4).Draw(t, "ncalls")
 	for i := 0; i < nCalls; i++ {
 		c := AddCall{Finder: rapid.IntRange(0, cfg.NFinders-1).Draw(t, "callfinder")}
